@@ -484,7 +484,15 @@ class ExprEval:
                     none = z3.ForAll([q], z3.Implies(z3.And(v.base.lo <= q, q < v.base.lo + v.base.length), z3.Not(v.cond(as_int(v.base.parent.get(q))))))
                 else:
                     none = z3.ForAll([q], z3.Implies(z3.And(0 <= q, q < v.base.length), z3.Not(v.cond(as_int(v.base.get(q))))))
-                self.engine.curpath = self.engine.curpath + [L >= 0, L <= v.base.length, (L == 0) == none]
+                # ... and, for comparisons with the small constants that occur in the code (len(..) == 1, == 2): L >= 2 iff two positions pass, L >= 3 iff three
+                par = v.base.parent if v.base.parent is not None else v.base
+                lo = v.base.lo if v.base.parent is not None else z3.IntVal(0)
+                hi = lo + v.base.length
+                a, b, c = fresh("p"), fresh("p"), fresh("p")
+                ok = lambda t: v.cond(as_int(par.get(t)))   # noqa: E731
+                two = z3.Exists([a, b], z3.And(lo <= a, a < b, b < hi, ok(a), ok(b)))
+                three = z3.Exists([a, b, c], z3.And(lo <= a, a < b, b < c, c < hi, ok(a), ok(b), ok(c)))
+                self.engine.curpath = self.engine.curpath + [L >= 0, L <= v.base.length, (L == 0) == none, (L >= 2) == two, (L >= 3) == three]
                 return L
             raise Unsupported("len of %s" % type(v).__name__)
         if name == "list" and len(n.args) == 1:
